@@ -334,7 +334,9 @@ func (s *Staking) distributeRewards(ctx *context) (map[common.Address]struct{}, 
 
 		// check if need to settle
 		if val.RewardsLastSettled < currRound && val.RewardsLastSettled+forceSettleGap <= currRound {
-			settleValidatorRewards(ctx, val, currRound)
+			// settle the record that was just written (newVal): settling the stale
+			// pre-distribution copy would overwrite, and lose, the rewards added above
+			settleValidatorRewards(ctx, newVal, currRound)
 			settled[val.MainAddress()] = struct{}{}
 		}
 	}
